@@ -125,10 +125,13 @@ def check(prog, run):
         f = cls.find_method(meth)
         shapes.require(f is not None, "C12.P2: %s not found" % meth)
         ok = False
+        from ..canon import Canon
+        _cn = Canon(f.node)
         for n in own_nodes(f.node):
-            if isinstance(n, ast.Call) and isinstance(n.func, ast.Name) and n.func.id == "print_ast" and n.args and isinstance(n.args[0], ast.Call) \
-                    and isinstance(n.args[0].func, ast.Name) and n.args[0].func.id == "ast_node_from_value":
-                inner = n.args[0]
+            if not (isinstance(n, ast.Call) and isinstance(n.func, ast.Name) and n.func.id == "print_ast" and n.args):
+                continue
+            inner = _cn.expr(n.args[0])
+            if isinstance(inner, ast.Call) and isinstance(inner.func, ast.Name) and inner.func.id == "ast_node_from_value":
                 if inner.args and isinstance(inner.args[0], ast.Attribute) and inner.args[0].attr == attr:
                     if typ is None:
                         ok = len(inner.args) == 2 and isinstance(inner.args[1], ast.Attribute) and inner.args[1].attr == "type" \
